@@ -172,9 +172,10 @@ def harnesses(tier):
     B = brewlib.setup()[0]
     pre = [((True, True), 3), ((True, False), 3), ((False, True), 3)] if tier == "quick" else \
           [((True, True), 4), ((True, False), 4), ((False, True), 4), ((False, False), 3), ((True, False, True), 4), ((False, True, True), 4), ((True, True, False), 4)]
-    for dfm, n in pre:
-        cfg = dict(n=n, df=list(dfm), sym_chunks=True)
-        hs.append(Harness("brew_pretrained[n=%d,decision_function=%s]" % (n, "".join("y" if b else "n" for b in dfm)), cfg, sym_brew_pretrained, real="brew_pretrained",
+    pre = [(d_, n_, False) for d_, n_ in pre] + [((True, True), 3, True)]
+    for dfm, n, same in pre:
+        cfg = dict(n=n, df=list(dfm), sym_chunks=True, same_fold=same)
+        hs.append(Harness("brew_pretrained[n=%d,decision_function=%s%s]" % (n, "".join("y" if b else "n" for b in dfm), ",every model carrying fold number 1" if same else ""), cfg, sym_brew_pretrained, real="brew_pretrained",
                           functions=[B.brew, B._predict, B.predict_fold, D.OnDiskPsmDataset._split], bounds=dict(N=n, folds=len(dfm), prediction_chunk="1..N+1"),
                           stubs=["as C02: recording models with fresh-symbol scores; calibrate_scores -> recorder (kernel decided above)", "crc32 -> uninterpreted injective hash"],
                           assumptions=["models supplied already trained (brew(models=[...])), one per fold; fold k's estimator has a decision_function iff stated"], sample_rate=0.02))
@@ -261,7 +262,9 @@ def sym_brew_pretrained(ctx, cfg):
     models = []
     for k in range(folds):
         m = brewlib.StubModel(log, decision_function=dfm[k], override=True)
-        m.is_trained, m.fold, m.uid = True, k + 1, k + 1
+        # (same_fold: one saved model handed over once per fold - every list entry carries the fold number it was trained
+        #  for, here 1; brew pairs models and folds by POSITION in the sorted list, which a stable sort leaves alone)
+        m.is_trained, m.fold, m.uid = True, (1 if cfg.get("same_fold") else k + 1), k + 1
         # direction of the model's best single FEATURE (lower-is-better for an e-value): it says nothing about
         # the model's own output, which is always higher-is-better
         m.desc = bool(core.SBool(z3.Bool("best_feature_desc_%d" % k)))
@@ -335,10 +338,20 @@ def real_brew_pretrained(cfg, inp):
             ds = mokapot.read_pin(p, max_workers=1)[0]
         except Exception as ex:
             return dict(exception=repr(ex), violation="read_pin raised %r" % (ex,))
+        class _ByPosition(c02._RealModel):
+            """scores and log entries by the model's POSITION in the list (uid), whatever its .fold says"""
+
+            def predict(self, psms):
+                keep, self.fold = self.fold, self.uid
+                try:
+                    return c02._RealModel.predict(self, psms)
+                finally:
+                    self.fold = keep
         models = []
         for k in range(folds):
-            m = c02._RealModel(log, dfm[k])
-            m.is_trained, m.fold, m.override = True, k + 1, True
+            m = _ByPosition(log, dfm[k])
+            m.uid = k + 1
+            m.is_trained, m.fold, m.override = True, (1 if cfg.get("same_fold") else k + 1), True
             m.desc = bool((inp.get("feature_descs") or [True] * folds)[k])
             models.append(m)
         old = (B.CHUNK_SIZE_ROWS_PREDICTION, B.calibrate_scores)
